@@ -34,7 +34,7 @@ def run(res, replay=None):
             if T.known_class(inp):
                 continue
             inputs.append(inp)
-    wd = os.path.join(C.CACHE, "run", "c08")
+    wd = C.rundir("c08")
     os.makedirs(wd, exist_ok=True)
     cases = []
     for inp in inputs:
